@@ -568,10 +568,16 @@ theorem layout_plain (r : PolyVerif.GbLayout.GbRec) (ℓ : PolyVerif.GbLayout.Re
   have hs : ∀ k, PolyVerif.GbLayout.extraSlot r ℓ k = [] := by
     intro k
     simp [PolyVerif.GbLayout.extraSlot, hc, PolyVerif.GbLayout.extrasLines]
+  -- (w-gbparse, C01 round 2) with `extraCuts = []` every extra block follows the references, none the feature table
+  have hcnt : PolyVerif.GbLayout.afterRefsCount r ℓ = r.extras.length := by
+    simp [PolyVerif.GbLayout.afterRefsCount, hc, off_nil]
   have hr : PolyVerif.GbLayout.extraRest r ℓ = PolyVerif.GbLayout.extrasLines r.extras ℓ.extras := by
-    simp [PolyVerif.GbLayout.extraRest, hc, off_nil]
+    simp [PolyVerif.GbLayout.extraRest, hc, off_nil, hcnt]
+  have haf : PolyVerif.GbLayout.extraAfterFeat r ℓ = [] := by
+    simp [PolyVerif.GbLayout.extraAfterFeat, hc, off_nil, hcnt, PolyVerif.GbLayout.extrasLines]
   unfold PolyVerif.GbLayout.layout PolyVerif.GbLayout.mblock PolyVerif.GbLayout.sourceBlock
-  simp only [hs, hr, h1, h2, h3, h4, h5, Bool.false_eq_true, false_and, if_false, List.append_nil, List.append_assoc]
+  simp only [hs, hr, haf, h1, h2, h3, h4, h5, Bool.false_eq_true, false_and, if_false, List.append_nil, List.append_assoc,
+    List.nil_append]
 
 
 theorem list_glue (L : Str) (H FT O : List Str) (FH OR T : Str) :
